@@ -31,18 +31,28 @@ LEVEL = "exploration"
 DESIGN_REF = "DESIGN.md#C06"
 TECHNIQUE = "generated font dictionaries, exhaustive over the 256 codes of each, reference model comparison"
 RULE = (
-    "deterministic part (seed independent): every base encoding x every simple-font subtype, every reference list "
-    "name / every no-mapping name / boundary uniXXXX,uXXXX names placed in a Differences array and in a Type 1 "
-    "header, and the same names driven through name2unicode/get_encoding directly; random part: font dictionaries "
-    "drawn per sub-family (base, diff, overlap, tounicode, widths, fontfile, ff_enc, std14, t3, ...) with random "
-    "Differences runs, ToUnicode subsets, Widths/FirstChar/MissingWidth tables, FontMatrix, text layout (Tj per "
-    "code / rows / TJ arrays, hex or literal strings, ascending / descending / permuted code order). All 256 codes "
-    "of every font are shown. One evaluation = one font (256 code comparisons, counted in codes_text_judged / "
-    "codes_adv_judged) or one directly driven name / Differences array; distinct = distinct font cases or names; "
-    "non-trivial = a font with >=100 judged codes, or any direct case. NOT generated (ambiguous): standard-14 "
-    "font with /Widths, composite names with unknown components, lower-case uni/u hex digits, symbolic fonts, "
-    "MacExpertEncoding, TrueType without /Encoding, Type3 /Encoding without /BaseEncoding, /Encoding dictionary "
-    "without /BaseEncoding on an embedded font, Type3 MissingWidth with a short Widths table."
+    "deterministic part (seed independent): every base encoding x every simple-font subtype (+ standard-14 faces "
+    "with /Encoding absent), every reference list name / every no-mapping name / boundary uniXXXX,uXXXX..uXXXXXX names "
+    "placed in a Differences array and in a Type 1 header, and the same names driven through name2unicode / "
+    "get_encoding directly; random part: font dictionaries drawn per sub-family (base, diff, overlap, tounicode, "
+    "widths, fontfile, ff_enc, std14, t3, traps, ff_traps, ff_std, std14_tu, t3_shear) with random Differences runs "
+    "(direct or indirect array, empty), ToUnicode subsets (bfchar, bfrange increment/array, 1-3 character targets, "
+    "flate or not, with/without begincmap), Widths/FirstChar/MissingWidth tables (ints, reals, indirect array or "
+    "items), FontMatrix, Type 1 header layout (EOL style, comments and strings that look like entries, several "
+    "entries per line, flate), font as direct or indirect object, table or stream xref (fonts in object streams), "
+    "font shown again on a later page (font cache), text layout (Tj per code / rows / TJ arrays, hex or literal "
+    "strings, ascending / descending / permuted code order). All 256 codes of every font are shown. One evaluation "
+    "= one font (256 code comparisons, counted in codes_text_judged / codes_adv_judged) or one directly driven name / "
+    "Differences array; distinct = distinct font cases or names; non-trivial = a font with >=100 judged codes, or "
+    "any direct case. NOT generated (ambiguous): a standard-14 base font, or one of the alternative names the PDF "
+    "Reference lists for them (Arial, TimesNewRoman, CourierNew...), together with /Widths or an embedded program; "
+    "composite names with unknown components; lower-case uni/u hex digits; symbolic fonts; MacExpertEncoding; "
+    "Type1/TrueType without /Encoding unless standard-14 or embedded Type 1; Type3 /Encoding without /BaseEncoding; "
+    "/Encoding dictionary without /BaseEncoding on an embedded font; Type3 MissingWidth with a short Widths table. "
+    "Left out of the oracle: WinAnsi 0x7F,0x81,0x8D,0x8F,0x90,0x9D (undefined or bullet); WinAnsi 0xA0 / MacRoman "
+    "0xCA accept space or nbsp, WinAnsi 0xAD accepts hyphen or soft hyphen; standard-14 advances only for codes whose "
+    "glyph is a standard Latin glyph of the face with a width in the reference excerpt (Courier*, Helvetica, "
+    "Times-Roman)."
 )
 ASSUMPTIONS = [
     "stdlib codecs cp1252 and mac_roman, unicodedata names, zlib are correct",
@@ -54,27 +64,32 @@ ASSUMPTIONS = [
 SHARD_TIMEOUT = {"quick": 600, "thorough": 3600}
 
 FAMILIES = ["base", "diff", "overlap", "tounicode", "widths", "fontfile", "ff_enc", "std14", "t3", "traps", "ff_traps", "ff_std", "std14_tu", "t3_shear"]
-# sub-families that carry a feature with a listed finding (generated apart, README "Failure keys and known findings")
+# Features on which a defect was found (and repaired) are generated as their own sub-families, never inside the
+# others: traps / ff_traps (uni/u names of misleading shape), ff_std (/Encoding StandardEncoding def in the Type 1
+# header), std14_tu (standard-14 font + ToUnicode), t3_shear (oblique FontMatrix).  Their failure keys are specific
+# (text:diff:trap_*, text:builtin_std, adv:std14_*+tounicode, adv:type3_shear_*), so that a finding could be listed
+# for one of them without hiding anything else.  TAGGED adds the family name to EVERY key of a family (unused now).
 TAGGED: List[str] = []
 
 
 def minimums(tier: str) -> Dict[str, int]:
     q = tier == "quick"
     return {
-        "evaluations": 2500 if q else 20000,
-        "distinct": 2000 if q else 15000,
-        "fonts": 600 if q else 6000,
-        "codes_text_judged": 150000 if q else 1500000,
-        "codes_adv_judged": 120000 if q else 1200000,
-        "type1_header_parser_calls": 40 if q else 400,
-        "type1_header_entries": 1000 if q else 10000,
-        "tounicode_codes_judged": 5000 if q else 50000,
-        "diff_codes_judged": 5000 if q else 50000,
-        "direct_name2unicode": 1000 if q else 4000,
-        "direct_get_encoding": 50 if q else 300,
+        "evaluations": 4000 if q else 90000,
+        "distinct": 3000 if q else 55000,
+        "fonts": 1300 if q else 50000,
+        "codes_text_judged": 300000 if q else 12000000,
+        "codes_adv_judged": 280000 if q else 11000000,
+        "type1_header_parser_calls": 200 if q else 8000,
+        "type1_header_entries": 12000 if q else 500000,
+        "tounicode_codes_judged": 12000 if q else 500000,
+        "diff_codes_judged": 8000 if q else 300000,
+        "direct_name2unicode": 2500 if q else 40000,
+        "direct_get_encoding": 100 if q else 3000,
+        "pages_with_reused_font": 60 if q else 3000,
         "seen:subtype": 4,
-        "seen:tsrc": 20,
-        "seen:wsrc": 8,
+        "seen:tsrc": 30,
+        "seen:wsrc": 11,
         "seen:family": len(FAMILIES),
     }
 
@@ -83,8 +98,8 @@ def shards(tier: str, seed: int) -> List[Dict[str, Any]]:
     out: List[Dict[str, Any]] = []
     for k in range(8):
         out.append({"kind": "det", "part": k, "of": 8})
-    nrand = 16 if tier == "quick" else 64
-    per = 5 if tier == "quick" else 14
+    nrand = 16 if tier == "quick" else 96
+    per = 6 if tier == "quick" else 40
     for k in range(nrand):
         out.append({"kind": "rand", "sub": k, "per_family": per})
     return out
@@ -232,16 +247,29 @@ def _why(case: Dict[str, Any], code: int) -> str:
     return " glyph name /%s" % nm if nm is not None else ""
 
 
-def run_doc(cases: List[Dict[str, Any]], xref: str, pack: bool, rec=None) -> List[Tuple[str, str, int]]:
-    """Build one document with a page per case, run pdfminer, judge. -> [(key, detail, index)]"""
-    data = G.build_doc(cases, xref=xref, pack=pack)
-    obs = read_pages(data, len(cases))
+def run_doc(cases: List[Dict[str, Any]], xref: str, pack: bool, rec=None,
+            pages_of: Optional[List[int]] = None) -> List[Tuple[str, str, int]]:
+    """Build one document with a page per case (or per entry of pages_of), run pdfminer, judge.
+    -> [(key, detail, index)]"""
+    data = G.build_doc(cases, xref=xref, pack=pack, pages_of=pages_of)
+    pages_of = list(range(len(cases))) if pages_of is None else pages_of
+    obs = read_pages(data, len(pages_of))
     out: List[Tuple[str, str, int]] = []
-    for i, case in enumerate(cases):
+    shown: set = set()
+    for pno, i in enumerate(pages_of):
+        case = cases[i]
+        if i in shown:  # the same font object on a later page (font cache): same expectation
+            for k, d in judge(case, obs[pno], None):
+                out.append((k, "[page %d, font reused] %s" % (pno, d), i))
+            if rec is not None:
+                rec.count("pages_with_reused_font")
+            continue
+        shown.add(i)
         stats = {"text": 0, "adv": 0, "text_skipped": 0, "adv_skipped": 0, "tsrc": {}, "wsrc": {}}
-        fails = judge(case, obs[i], stats)
+        fails = judge(case, obs[pno], stats)
         for k, d in fails:
             out.append((k, d, i))
+        obs_i = obs[pno]
         if rec is not None:
             rec.case(chash(case), stats["text"] >= 100)
             rec.count("fonts")
@@ -273,10 +301,10 @@ def run_doc(cases: List[Dict[str, Any]], xref: str, pack: bool, rec=None) -> Lis
             rec.see("family", case["tag"])
             if case["matrix"]:
                 rec.see("type3_scale", repr(case["matrix"][0]))
-            if rec.want_sample() and case["tag"] in ("tounicode", "fontfile") and isinstance(obs[i], list):
+            if rec.want_sample() and case["tag"] in ("tounicode", "fontfile") and isinstance(obs_i, list):
                 order = G.code_order(case)
                 rec.sample({"font": _brief(case), "enc": case["enc"], "first_codes": order[:12],
-                            "observed": [[t, a] for t, a in obs[i][:12]]})
+                            "observed": [[t, a] for t, a in obs_i[:12]]})
     return out
 
 
@@ -427,8 +455,9 @@ def det_items() -> List[Dict[str, Any]]:
 
 def run_item(it: Dict[str, Any], rec) -> None:
     if "doc" in it:
-        for k, d, i in run_doc(it["doc"], it.get("xref", "table"), it.get("pack", False), rec):
-            rec.fail(k, {"kind": "doc", "cases": it["doc"], "xref": it.get("xref", "table"), "pack": it.get("pack", False)}, d)
+        for k, d, i in run_doc(it["doc"], it.get("xref", "table"), it.get("pack", False), rec, it.get("pages_of")):
+            rec.fail(k, {"kind": "doc", "cases": it["doc"], "xref": it.get("xref", "table"), "pack": it.get("pack", False),
+                         "pages_of": it.get("pages_of")}, d)
     elif "names" in it:
         for n in it["names"]:
             rec.case(chash("n2u", n), True)
@@ -463,7 +492,11 @@ def run_shard(spec: Dict[str, Any], rec) -> None:
         while i < len(cases):
             n = rng.choice([1, 2, 4, 6])
             xref = "stream" if rng.random() < 0.3 else "table"
-            run_item({"doc": cases[i:i + n], "xref": xref, "pack": rng.random() < 0.5}, rec)
+            chunk = cases[i:i + n]
+            pages_of = list(range(len(chunk)))
+            if rng.random() < 0.3:  # show some fonts again on later pages (PDFResourceManager font cache)
+                pages_of += [rng.randrange(len(chunk)) for _ in range(rng.randint(1, 2))]
+            run_item({"doc": chunk, "xref": xref, "pack": rng.random() < 0.5, "pages_of": pages_of}, rec)
             i += n
         # direct drive with random names / Differences
         for _ in range(spec["per_family"] * 12):
@@ -480,7 +513,8 @@ def run_shard(spec: Dict[str, Any], rec) -> None:
 def replay(case: Dict[str, Any]) -> List[Tuple[str, str]]:
     kind = case.get("kind")
     if kind == "doc":
-        return [(k, d) for k, d, _ in run_doc(case["cases"], case.get("xref", "table"), case.get("pack", False))]
+        return [(k, d) for k, d, _ in run_doc(case["cases"], case.get("xref", "table"), case.get("pack", False), None,
+                                              case.get("pages_of"))]
     if kind == "name":
         return check_name(case["name"])
     if kind == "getenc":
